@@ -575,8 +575,63 @@ def dedup(cases):
     return out
 
 
+SCOPE = {'act': '-of act ', 'nonact': '-of !act ', 'both': ''}
+
+
+def exec_path_case(task, cd):
+    """spec/PathLookup.tla: two directories with a program of one name; PATH changed by `env`; who ran?"""
+    from harness import inproc
+    log = os.path.join(cd.out, 'ran.txt')
+    files, mode = {}, {}
+    for d in ('orig', 'dbl'):
+        files['%s/vprog' % d] = '#!/bin/sh\necho "$1 %s" >> %s\n' % (d, log)
+        mode['%s/vprog' % d] = 0o755
+    lines = ['[setup]']
+    for t, d in task['hist']:
+        lines += ['env %sPATH = "%s:${PATH}"' % (SCOPE[t], os.path.join(cd.home, d)), '% vprog setup']
+    lines += ['[act]', '% vprog act', '[assert]', '% vprog assert']
+    files['c.case'] = '\n'.join(lines) + '\n'
+    cd.write(files, mode=mode)
+    path0 = os.environ.get('PATH', '/usr/bin:/bin')
+    r = inproc.run_main(['c.case'], cd, env={'PATH': os.path.join(cd.home, 'orig') + os.pathsep + path0})
+    os.environ['PATH'] = path0
+    ran = []
+    if os.path.exists(log):
+        ran = [l.split() for l in open(log).read().splitlines() if l.strip()]
+    return dict(exit=r['exit'], exception=r['exception'], ident=(r['stdout'].splitlines() or [''])[0],
+                stderr=r['stderr'][:400], ran=ran, text=files['c.case'])
+
+
+def check_path_lookup(ctx):
+    res = ctx.tlc('PathLookup', 'SPECIFICATION Spec\nCONSTANT MaxSets = %d\nINVARIANT LookupThroughOwnSet\n'
+                                'INVARIANT AssertSeesNonAct\nINVARIANT Export\nCHECK_DEADLOCK FALSE\n'
+                  % (2 if ctx.tier == 'quick' else 3), workers=1, name='mc-path-lookup', coverage=True, count=False)
+    ctx.require_coverage(res, ['SetPath', 'EndSetup', 'Act', 'AssertProc'])
+    recs = res.printed_json('PATHCASE')
+    if len(recs) < 40:
+        raise core.MachineryFailure('PathLookup exported %d cases' % len(recs))
+    with ctx.pool(workers=8) as pool:
+        obs = pool.map('harness.props.c11:exec_path_case', [dict(hist=r['hist']) for r in recs], deadline=60, chunk=4)
+    bad = 0
+    for r, o in zip(recs, obs):
+        ctx.count()
+        ctx.nontrivial('path:' + json.dumps(r['hist']))
+        want = [list(x) for x in r['ran']]
+        if o.get('exit') != 0 or o.get('ident') != 'PASS' or o.get('ran') != want:
+            bad += 1
+            ctx.fail('ProgramFoundThroughThePathOfItsSet hist=%s' % json.dumps(r['hist']),
+                     dict(kind='path', rec=r, observed=o))
+    # negative control: the comparison tells the two programs apart
+    if recs and obs and obs[0].get('ran') == [['act', 'dbl'], ['assert', 'dbl']]:
+        raise core.MachineryFailure('path lookup: the original program was not the one that ran without any env instruction')
+    ctx.cov['negative_controls_rejected'] += 1
+    ctx.cov['traces_validated_against_impl'] += len(recs)
+    ctx.cov.setdefault('replay', {})['PATH: a program named without a directory'] = dict(cases=len(recs), disagreements=bad)
+
+
 def run(ctx):
     quick = ctx.tier == 'quick'
+    check_path_lookup(ctx)
     configs = CONFIGS[ctx.tier]
     sim_n, sim_runs, sim_consts = SIMULATE[ctx.tier]
     # the worker pools are forked first (while this process has one thread); the sleeper cases wait most of the
@@ -728,6 +783,14 @@ def replay(ctx, rec):
     if r.get('kind') == 'trace':
         from harness import trace_exec
         return trace_exec.replay(ctx, r)
+    if r.get('kind') == 'path':
+        with ctx.pool(workers=1) as pool:
+            o = pool.map('harness.props.c11:exec_path_case', [dict(hist=r['rec']['hist'])], deadline=60)[0]
+        print(json.dumps(dict(rec=r['rec'], observed=o), indent=1))
+        if o.get('exit') != 0 or o.get('ran') != [list(x) for x in r['rec']['ran']]:
+            print('VIOLATION property=C11 replay=(given)')
+            return 1
+        return 0
     with ctx.pool(workers=1) as pool:
         o = run_cases(pool, [r['case']], 90, 1)[0]
     clause = compare(r['case'], o)
